@@ -3,6 +3,7 @@ package main
 import (
 	"fmt"
 	"go/ast"
+	"go/constant"
 	"go/token"
 	"go/types"
 	"sort"
@@ -102,6 +103,42 @@ func checkC15(r *Run) {
 		}
 		r.check(okX, "r5", "newErr maps through linux.ExtractErrno", ne.Decl.Pos(), "Rlerror.Error = ExtractErrno(err)", "newErr does not derive the errno with linux.ExtractErrno")
 	}
+
+	// An error that is wrapped on its way to newErr keeps its chain: ExtractErrno finds the
+	// errno with errors.As, so formatting a backend error with anything but %w turns its
+	// errno into EIO.
+	nWrap := 0
+	for _, fi := range r.L.funcsOfPkg("p9") {
+		if fi.Decl.Body == nil || isClientSide(fi) {
+			continue
+		}
+		ast.Inspect(fi.Decl.Body, func(n ast.Node) bool {
+			c, ok := n.(*ast.CallExpr)
+			if !ok || calleeKey(info, c) != "fmt.Errorf" || len(c.Args) < 2 {
+				return true
+			}
+			format := constValue(info, c.Args[0])
+			if format == nil || format.Kind() != constant.String {
+				return true
+			}
+			verbs := formatVerbs(constant.StringVal(format))
+			for i, a := range c.Args[1:] {
+				t := info.TypeOf(a)
+				if t == nil || !isErrorType(t) {
+					continue
+				}
+				nWrap++
+				verb := byte('?')
+				if i < len(verbs) {
+					verb = verbs[i]
+				}
+				r.check(verb == 'w', "r5", fi.Key+": "+r.L.str(c)+" keeps the error chain", c.Pos(), "%w",
+					fmt.Sprintf("the error %s is formatted with %%%c: errors.As no longer reaches the backend's errno and the reply becomes EIO", r.L.str(a), verb))
+			}
+			return true
+		})
+	}
+	r.floor("r5", "errors wrapped on the server side", nWrap, 2)
 
 	// r6: server-wide state.
 	for _, fa := range m.fields() {
@@ -447,4 +484,23 @@ func c15NoMasking(r *Run, m *ServerModel) {
 		}
 		r.check(isConst || isVar, "r5", s.Root.Key+": newErr argument", s.Call.Pos(), "errno constant or the error variable", "newErr is given "+r.L.str(arg))
 	}
+}
+
+// formatVerbs lists the verbs of a format string in argument order (%% skipped; flags, width
+// and precision ignored; explicit argument indexes are not used in this code base).
+func formatVerbs(f string) []byte {
+	var out []byte
+	for i := 0; i < len(f); i++ {
+		if f[i] != '%' {
+			continue
+		}
+		i++
+		for i < len(f) && strings.IndexByte("+-# 0123456789.*[]", f[i]) >= 0 {
+			i++
+		}
+		if i < len(f) && f[i] != '%' {
+			out = append(out, f[i])
+		}
+	}
+	return out
 }
